@@ -88,6 +88,16 @@ def _mk(R):
                 ctx.eq("grad[%s][%d]" % (nm, k), _S(ctx, _el(gv[k])), _S(ctx, _d(_el(frac[key]), th, k)),
                        clause="returned gradient of the fraction == d(fraction)/d theta_k (quotient rule, interference terms included)")
         ctx.holds("selection_restored", ctx.tf.constant(amp.decay_group.chains_idx == list(range(R))), clause="the chain selection on return equals the selection on entry")
+        if R >= 2:
+            # a strict subset of resonances requested while a DIFFERENT selection is active on entry: the entry selection must come back
+            for fn_name in ("cal_fitfractions", "cal_fitfractions_no_grad"):
+                entry = list(range(R))[1:] if R > 2 else [1]
+                amp.decay_group.set_used_chains(list(entry))
+                amp.selected = [names[i] for i in entry]
+                getattr(ff, fn_name)(amp, [{}], res=names[:1], batch=None)
+                ctx.holds("selection_restored/subset/" + fn_name, ctx.tf.constant(list(amp.decay_group.chains_idx) == list(entry)),
+                          clause="%s(res=<strict subset>) called while chains %s are selected: the same chains are selected on return" % (fn_name, entry))
+            amp.decay_group.set_used_chains(list(range(R)))
 
     return g
 
